@@ -91,6 +91,54 @@ theorem C04_verify_iff (sv : Nat → Nat → Bool) (clock : Time) {store : Store
     simp [hlt, hn, hvl, hch.1, hit, hvi, hch.2, (verifyParent_leaf sv hlt hit).mpr hls, hget, hrt, hvr, hrfp,
       (verifyParent_inter sv hit hrt).mpr his]
 
+/-- The property's sentence with a plain "presented or stored": some intermediate that is presented
+*or* stored, whose fingerprint the leaf names. -/
+def ValidChainAny (sv : Nat → Nat → Bool) (store : Store) (opts : Options) (now : Time) (leaf : Cert) : Prop :=
+  leaf.ctype = leafT ∧ NameOK opts leaf ∧
+  ∃ inter root,
+    (opts.presented = some inter ∨ store.has inter) ∧ inter.fp = leaf.parent ∧
+    inter.ctype = intermediateT ∧ SignedBy sv leaf inter ∧
+    store.has root ∧ root.fp = inter.parent ∧ root.ctype = rootT ∧ SignedBy sv inter root ∧
+    validAt now leaf = true ∧ validAt now inter = true ∧ validAt now root = true
+
+/-- **C04, "presented or stored".** When fingerprints identify certificates (SHA3 collision freedom,
+needed only between the presented certificate and the stored ones), the precedence of the presented
+intermediate is invisible: acceptance is equivalent to the existence of *any* valid chain. -/
+theorem C04_verify_iff_any (sv : Nat → Nat → Bool) (clock : Time) {store : Store} (hwf : StoreWF store)
+    (opts : Options) (leaf : Cert)
+    (hinj : ∀ p, opts.presented = some p → ∀ c, store.has c → c.fp = p.fp → c = p) :
+    verifyLeaf sv clock store opts leaf = .ok ↔ ValidChainAny sv store opts (opts.now clock) leaf := by
+  rw [C04_verify_iff sv clock hwf]
+  constructor
+  · rintro ⟨h1, h2, inter, root, hint, rest⟩
+    refine ⟨h1, h2, inter, root, ?_, ?_, rest⟩
+    · rcases hint with ⟨hp, _⟩ | ⟨_, hs, _⟩
+      · exact Or.inl hp
+      · exact Or.inr hs
+    · rcases hint with ⟨_, hf⟩ | ⟨_, _, hf⟩
+      · exact hf.symm
+      · exact hf
+  · rintro ⟨h1, h2, inter, root, hps, hfp, rest⟩
+    refine ⟨h1, h2, inter, root, ?_, rest⟩
+    rcases hps with hp | hs
+    · exact Or.inl ⟨hp, hfp.symm⟩
+    · cases hp : opts.presented with
+      | none =>
+        refine Or.inr ⟨?_, hs, hfp⟩
+        intro p' hp'
+        rw [hp] at hp'
+        cases hp'
+      | some p =>
+        by_cases hlp : leaf.parent = p.fp
+        · have : inter = p := hinj p hp inter hs (hfp.trans hlp)
+          subst this
+          exact Or.inl ⟨hp, hlp⟩
+        · refine Or.inr ⟨?_, hs, hfp⟩
+          intro p' hp'
+          rw [hp] at hp'
+          cases hp'
+          exact hlp
+
 /-- `StoreWF` is what `AddCertificate` establishes: any store built from the empty one is well-formed … -/
 theorem C04_store_wf (cs : List Cert) : StoreWF (cs.foldl addCertificate []) := storeWF_build cs
 
